@@ -1460,6 +1460,108 @@ fn main() {
                 Err(_) => println!("reopen_get=open-failed"),
             }
         }
+        // memtable_versions : several versions per key in the memtable (puts, deletes, re-puts), a snapshot after every write;
+        // every snapshot is read back with get and with a forward and a backward scan (nothing is flushed)
+        "memtable_versions" => {
+            use raindb::{RainDbIterator, ReadOptions, WriteOptions};
+            let mut o = raindb::DbOptions::with_memory_env();
+            o.db_path = "db".to_string();
+            o.create_if_missing = true;
+            let db = raindb::DB::open(o).expect("open");
+            let script: Vec<(&str, Option<&str>)> = vec![("b", Some("1")), ("a", Some("2")), ("b", None), ("c", Some("3")), ("b", Some("4")), ("a", None), ("", Some("5")), ("c", Some("6")), ("a", Some("7")), ("", None)];
+            let mut state: std::collections::BTreeMap<String, String> = Default::default();
+            let mut snaps = vec![];
+            for (k, v) in &script {
+                match v {
+                    Some(v) => { db.put(WriteOptions::default(), k.as_bytes().to_vec(), v.as_bytes().to_vec()).unwrap(); state.insert(k.to_string(), v.to_string()); }
+                    None => { db.delete(WriteOptions::default(), k.as_bytes().to_vec()).unwrap(); state.remove(*k); }
+                }
+                snaps.push((db.get_snapshot(), state.clone()));
+            }
+            let (mut reads, mut bad, mut first) = (0usize, 0usize, String::new());
+            for (i, (snap, want)) in snaps.iter().enumerate() {
+                for k in ["", "a", "b", "c", "d"] {
+                    reads += 1;
+                    let got = db.get(ReadOptions { fill_cache: true, snapshot: Some(snap.clone()) }, k.as_bytes()).ok().map(|v| String::from_utf8_lossy(&v).to_string());
+                    if got != want.get(k).cloned() {
+                        bad += 1;
+                        if first.is_empty() { first = format!("get {:?} at snapshot {}: {:?}, expected {:?}", k, i, got, want.get(k)); }
+                    }
+                }
+                let exp: Vec<(String, String)> = want.iter().map(|(k, v)| (k.clone(), v.clone())).collect();
+                let mut it = db.new_iterator(ReadOptions { fill_cache: true, snapshot: Some(snap.clone()) }).unwrap();
+                let mut fwd = vec![];
+                let _ = it.seek_to_first();
+                while it.is_valid() { let (k, v) = it.current().unwrap(); fwd.push((String::from_utf8_lossy(k).to_string(), String::from_utf8_lossy(v).to_string())); if it.next().is_none() { break; } }
+                let mut bwd = vec![];
+                let _ = it.seek_to_last();
+                while it.is_valid() { let (k, v) = it.current().unwrap(); bwd.push((String::from_utf8_lossy(k).to_string(), String::from_utf8_lossy(v).to_string())); if it.prev().is_none() { break; } }
+                bwd.reverse();
+                reads += 2;
+                if fwd != exp { bad += 1; if first.is_empty() { first = format!("forward scan at snapshot {}: {:?}, expected {:?}", i, fwd, exp); } }
+                if bwd != exp { bad += 1; if first.is_empty() { first = format!("backward scan at snapshot {}: {:?}, expected {:?}", i, bwd, exp); } }
+            }
+            println!("reads={}", reads);
+            println!("mismatches={}", bad);
+            println!("first_mismatch={}", first);
+        }
+        // open_during_destroy : disk file system (real flock); destroy_database of a closed database; right before its first
+        // destructive operation another handle tries to open the database. That open must be refused.
+        "open_during_destroy" => {
+            use raindb::WriteOptions;
+            let disk: std::sync::Arc<dyn raindb::fs::FileSystem> = std::sync::Arc::new(raindb::fs::TmpFileSystem::new(None));
+            let hook = std::sync::Arc::new(rdbv::hookfs::HookFs::new(std::sync::Arc::clone(&disk)));
+            let mut o = raindb::DbOptions::with_memory_env();
+            o.filesystem_provider = hook.clone();
+            o.db_path = "db".to_string();
+            o.create_if_missing = true;
+            {
+                let db = raindb::DB::open(o.clone()).expect("open");
+                db.put(WriteOptions::default(), b"k".to_vec(), b"v".to_vec()).unwrap();
+            }
+            let seen: std::sync::Arc<std::sync::Mutex<String>> = std::sync::Arc::new(std::sync::Mutex::new("not-attempted".to_string()));
+            let (seen2, mut o2) = (std::sync::Arc::clone(&seen), o.clone());
+            o2.filesystem_provider = std::sync::Arc::clone(&disk);
+            o2.create_if_missing = false;
+            hook.set_hook(Box::new(move || {
+                let r = raindb::DB::open(o2);
+                *seen2.lock().unwrap() = if r.is_ok() { "ok".to_string() } else { "err".to_string() };
+            }));
+            println!("destroy={}", if raindb::DB::destroy_database(o.clone()).is_ok() { "ok" } else { "err" });
+            println!("open_during_destroy={}", seen.lock().unwrap());
+        }
+        // close_while_background_busy : disk file system; background work of the instance is still scheduled while it is dropped;
+        // the condition variable is notified once although the work has not finished; a second open must still be refused
+        "close_while_background_busy" => {
+            use raindb::WriteOptions;
+            let disk: std::sync::Arc<dyn raindb::fs::FileSystem> = std::sync::Arc::new(raindb::fs::TmpFileSystem::new(None));
+            let mut o = raindb::DbOptions::with_memory_env();
+            o.filesystem_provider = std::sync::Arc::clone(&disk);
+            o.db_path = "db".to_string();
+            o.create_if_missing = true;
+            let db = std::sync::Arc::new(raindb::DB::open(o.clone()).expect("open"));
+            db.put(WriteOptions::default(), b"k".to_vec(), b"v".to_vec()).unwrap();
+            db.hold_background_for_verif(true);
+            let (tx, rx) = std::sync::mpsc::channel();
+            let owner = std::thread::spawn(move || {
+                let d = rx.recv().unwrap();
+                drop::<std::sync::Arc<raindb::DB>>(d);
+            });
+            // keep a raw handle for the hooks: the closing thread owns the only Arc; hooks go through a second clone that is
+            // handed over right before the drop
+            let db2 = std::sync::Arc::clone(&db);
+            let ptr: &'static raindb::DB = unsafe { &*(std::sync::Arc::as_ptr(&db2)) };
+            drop(db2);
+            tx.send(db).unwrap();
+            std::thread::sleep(std::time::Duration::from_millis(300));
+            ptr.notify_background_signal_for_verif();          // a wake-up that does not mean "finished"
+            std::thread::sleep(std::time::Duration::from_millis(300));
+            println!("open_while_closing={}", if raindb::DB::open(o.clone()).is_ok() { "ok" } else { "err" });
+            ptr.hold_background_for_verif(false);
+            ptr.notify_background_signal_for_verif();
+            let _ = owner.join();
+            println!("open_after_close={}", if raindb::DB::open(o.clone()).is_ok() { "ok" } else { "err" });
+        }
         "vs_recover" => {
             // a database is created, written and closed; a fresh version set recovers from its files
             use raindb::WriteOptions;
